@@ -12,6 +12,11 @@ Case language (one command per line; the same lines are parsed by harness/c14/c1
   peerclose                 peer closes its end; poll + process_io (EPOLLHUP -> EVENT_CLOSE)
   peerfin                   peer half-closes; poll + process_io (recv()==0 -> NET_DEAD -> remove_interactive)
   dump                      dump <hex|->  = ring contents from consumer, message_length bytes
+  snoop <j> / unsnoop       new_set_snoop (this user, user j / 0)
+  react <tok>,<tok>,...     scripted reactions of this user's receive_snoop (LPC), one per call: e echo the text to itself,
+                            t<j> tell user j, d<j> destruct user j, x raise an error, n nothing.  After the first `react`
+                            every write prints the state of every user.
+  (wbeg/wend come from the add_message hook of src/comm.c, `close` from the interposed close())
 
 Trace lines:
   send <offered_len> a <acceptedhex>      |  send <offered_len> W|I|P|E<n> -
@@ -19,6 +24,7 @@ Trace lines:
   st <want> <producer> <consumer> <length> <dead>   |  st closed      (after every command but sendres / dump)
 """
 import os
+import re
 
 from nvlib import engine as E
 from nvlib import extract as X
@@ -48,12 +54,15 @@ def vw(b):
 class C14(Prop):
     id = "C14"
     title = "Output reaches the client in order, exactly once, under any write pattern"
-    lean_modules = ["NV.C14.Props", "NV.C14.PropsHist", "NV.C14.PropsNeg"]
+    lean_modules = ["NV.C14.Props", "NV.C14.PropsHist", "NV.C14.PropsNeg", "NV.C14.PropsMulti"]
     theorems = ["NV.C14.model_satisfies_spec", "NV.C14.ring_inv", "NV.C14.ring_indices_in_bounds",
                 "NV.C14.chunk_in_bounds", "NV.C14.no_fault", "NV.C14.write_interest_when_pending",
                 "NV.C14.N_two_le", "NV.C14.only_tail_lost", "NV.C14.write_stores_prefix_image",
                 "NV.C14.sent_then_ring_is_stored", "NV.C14.delivered_is_ordered_prefix_image",
                 "NV.C14.delivered_texts",
+                # several users, snoop links, add_message re-entered from a snooper's receive_snoop
+                "NV.C14.world_user_stream", "NV.C14.multi_user_stream_ok", "NV.C14.multi_model_satisfies_spec",
+                "NV.C14.multi_delivered_is_stored",
                 # bridges between the definitions regenerated from src/comm.c and the ring operations
                 "NV.C14.chunkLen_eq", "NV.C14.producerNext_eq", "NV.C14.consumerNext_eq", "NV.C14.lengthAfterSend_eq",
                 "NV.C14.thrFull_eq", "NV.C14.thrLF_eq", "NV.C14.keepsData_eq", "NV.C14.keepsData_pipe",
@@ -67,16 +76,22 @@ class C14(Prop):
     search_n = 800
     design_ref = "5/C14"
     technique = ("Lean 4 proof (ring invariant, delivered-stream refinement, induction over write / send-result "
-                 "histories) + translator-generated constants + model/implementation correspondence")
+                 "histories, world-level simulation for several users with re-entrant add_message) + translator-generated "
+                 "constants, expressions and control-flow shape ties + model/implementation correspondence")
     level_text = ("Lean 4 theorems about an executable model of the per-user output ring of src/comm.c "
                   "(add_message, add_vmessage, flush_message, the flush points in get_user_command, process_io and "
-                  "remove_interactive) for all message sequences and all scripts of send() results; the model is tied "
-                  "to the source by the regenerated buffer size and by running the real comm.c code (real "
-                  "setup_accepted_connection on a socketpair, real epoll runtime, interposed send()) and the model on "
-                  "the same generated histories; the Lean specification oracle judges every implementation trace")
+                  "remove_interactive) for all message sequences and all scripts of send() results, and about a world of "
+                  "several users (routing, driver passes over all users, snoop links, add_message re-entered from a "
+                  "snooper's receive_snoop that writes, destructs users or raises an error): every user's stream of every "
+                  "world run is proved to be a single-user run and to satisfy the specification oracle; the model is tied "
+                  "to the source by regenerated constants / expressions / 33 statement-shape checks and by running the real "
+                  "comm.c code (real setup_accepted_connection on socketpairs, real epoll runtime, real LPC user objects, "
+                  "interposed send()/write()/close(), every add_message call observed through a guarded hook) and the model "
+                  "on the same generated histories; the Lean specification oracle judges every implementation trace")
     level_note = ("trusted: Lean kernel; extract.py; the correspondence harness (differential, only the generated "
                   "histories); the socket is an oracle script of send() results; write interest is observed at the "
-                  "epoll_ctl() boundary; one user, no input traffic")
+                  "epoll_ctl() boundary; the snooper's LPC behaviour is a script of reactions (echo / tell / destruct / "
+                  "error / nothing), other LPC behaviour is not modelled; no input traffic")
     rule = ("cases = corpus + known-finding inputs + boundary list (messages of N-1/N/N+1/3N bytes, LF arriving at "
             "length N-2/N-1/N, partial sends ending at/before/after the wrap point, all-EWOULDBLOCK, EPIPE mid-write, "
             "EINTR, close/peer close/peer FIN with pending data) + seeded random histories of write/vwrite/sendres/"
@@ -84,19 +99,25 @@ class C14(Prop):
             "LF densities 0..1 and send scripts of partial/W/I/P/E results, half of them started at a random ring "
             "offset, for three kinds of user (PORT_ASCII, PORT_TELNET with its connect negotiation, console user), one to "
             "three users per case with independent send scripts, snoop links (set, replaced, loop refused, cleared by "
-            "close), flush_messages() efun with and without argument, send results given as plain errno numbers; the "
+            "close), scripted receive_snoop reactions of the snooper (echo to itself via receive(), tell_object to any "
+            "user, destruct of any user incl. the one being written to and the snooper itself, error) in half of the "
+            "multi-user cases, flush_messages() efun with and without argument, send results given as plain errno numbers; the "
             "quantifier of the property is covered as: writes of all lengths = 0,1,2,10,100,1000,N-2..N+2,2N,3N+7,random "
             "up to 12400 bytes; send results = full, partial of every size class (1..5, 6..600, around N, up to the ring "
             "end +-2, any), EWOULDBLOCK, EINTR, EPIPE, ECONNRESET; flush points = explicit, per cycle, write-ready, "
             "efun, close, peer close, peer FIN; a case is non-trivial when its trace has >= 2 lines; distinct = distinct canonical "
             "implementation trace")
-    not_covered = ["console reconnect (console_mode option) and the console worker thread; the console user's output path "
-                   "itself (write(2) branch of flush_message, flush at the end of add_message) is modelled and run",
+    not_covered = ["console reconnect (console_mode option: the reconnect prompt is written after CLOSING is set and is "
+                   "therefore never stored - seen by reading, not run) and the console worker thread; the console user's "
+                   "output path itself (write(2) branch of flush_message, flush at the end of add_message) is modelled and run",
                    "telnet negotiation replies written from copy_chars (input driven) interleaved with text: they use the same "
-                   "add_message/flush_message calls, but no C14 case sends input bytes",
-                   "snooper LPC code that itself writes to users (re-entrancy of add_message from receive_snoop)",
-                   "several users: routing, snoop relation and tagging are compared with the implementation, not proved "
-                   "(each user's own stream is a single-user run by construction)",
+                   "add_message/flush_message calls (now visible through the add_message hook), but no C14 case sends input "
+                   "bytes; the input-side snoop forwarding of get_user_data is not run either",
+                   "snooper LPC code other than the scripted reactions (echo / tell / destruct / error); a leak of the "
+                   "formatted string when the snooper raises an error inside add_vmessage is not observed (leak detection off)",
+                   "the lazy creation of users by the case driver happens between world runs; the several-user theorems "
+                   "are stated for world runs (they compose: multi_user_stream_ok re-establishes its hypothesis)",
+                   "MSG_OOB flag (telnet AO) of the first send after an abort-output request",
                    "telnet IAC doubling is not done by the code and not claimed",
                    "builds with FLUSH_OUTPUT_IMMEDIATELY",
                    "Windows IOCP runtime (only the Linux epoll runtime is run)"]
@@ -126,7 +147,8 @@ class C14(Prop):
     def canon(self, lines):
         """every line is tagged u<k>; the property is per user, so the lines are grouped by user (stable): the order in
         which the driver visits the users during one pass (slot order / epoll order) is not part of the comparison"""
-        ls = [l for l in Prop.canon(self, lines) if not (l.startswith("logon") or l.startswith("net_dead"))]
+        # `err ...` = the master's error_handler line of an LPC error; the harness reports the error itself as `lpcerr`
+        ls = [l for l in Prop.canon(self, lines) if not (l.startswith("logon") or l.startswith("net_dead") or l.startswith("err *"))]
 
         def key(l):
             t = l.split(" ", 1)[0]
@@ -246,6 +268,25 @@ class C14(Prop):
         mk("peerfin-serves-others", ["@2 sendres W", "@2 " + w(b"pending\n"), "@2 flush", "@1 peerfin", "@2 dump"])
         mk("peerclose-serves-others", ["@2 sendres W", "@2 " + w(b"pending\n"), "@2 flush", "sendres W", w(b"mine\n"),
                                        "sendres 2,P", "@1 peerclose", "@2 dump"])
+        # re-entrancy: the snooper's receive_snoop (LPC) writes, destructs, raises an error while add_message is running
+        mk("react-echo", ["@2 snoop 1", "@2 react e,e", w(b"seen\n"), vw(b"also\n"), w(b"plain\n"), "@2 dump"])
+        mk("react-error-keeps-write-interest", ["@2 snoop 1", "@2 react x", w(b"hi\n"), "cycle"])
+        mk("react-error-vwrite", ["@2 snoop 1", "@2 react x,x", "sendres W", vw(b"hi\n"), w(b"ho\n"), "wready"])
+        mk("react-destructs-writer-target", ["@2 snoop 1", "@2 react d1", w(b"hi\n"), w(b"gone\n"), "@2 dump"])
+        mk("react-destructs-target-pending-W", ["@2 snoop 1", "@2 react d1", "sendres W", w(b"hi\n"), "@2 dump"])
+        mk("react-destructs-target-vwrite", ["@2 snoop 1", "@2 react d1", vw(b"hi\n"), w(b"x")])
+        mk("react-destructs-console-target", ["@1 connect console", "@2 snoop 1", "@2 react d1", w(b"hi\n"), w(b"x")])
+        mk("react-destructs-itself", ["@2 snoop 1", "@2 react d2", w(b"hi\n"), w(b"again\n"), "@2 " + w(b"x")])
+        mk("react-tells-target", ["@2 snoop 1", "@2 react t1,t1", "sendres W", w(filler(N - 4)), w(b"z"), "dump"])
+        mk("react-chain", ["@2 snoop 1", "@3 snoop 2", "@2 react e,t1,d2", "@3 react t2,x,e", "sendres W", w(b"hi\n"),
+                           vw(b"AB\n"), w(b"C"), "@3 dump", w(b"D"), "@2 dump"])
+        mk("react-echo-full-ring", ["@2 snoop 1", "@2 react e,e,e", "@2 sendres W,5,W", w(filler(1990) + LF),
+                                    w(filler(1990, 3) + LF), w(filler(1990, 7) + LF), "@2 dump"])
+        mk("react-echo-console-snooper", ["@2 connect console", "@2 snoop 1", "@2 react e,e", "@2 sendres 3,W", w(b"hello\n"),
+                                          vw(b"v\n"), "wready"])
+        mk("react-destructed-object-commands", ["@2 snoop 1", "@2 react d2", w(b"x\n"), "@2 eflush", "@2 flushall", "@2 react e",
+                                                "@2 snoop 1", w(b"y\n"), "@2 " + w(b"z")])
+        mk("react-tell-dead", ["@2 snoop 1", "@3 sendres P", "@3 " + w(b"x"), "@3 flush", "@2 react t3,d3,t3", w(b"a"), w(b"b"), w(b"c")])
         return B
 
     # ---- random ---------------------------------------------------------------
@@ -298,6 +339,13 @@ class C14(Prop):
             return rng.weighted([("E104", 6), ("P", 1), ("E11", 2), ("E4", 1)])      # E11/E4: EWOULDBLOCK/EINTR as plain numbers
         return k
 
+    def gen_react(self, rng, nusers):
+        toks = []
+        for _ in range(rng.range(1, 4)):
+            t = rng.weighted([("e", 8), ("t", 5), ("d", 2), ("x", 2), ("n", 1)])
+            toks.append(t + str(rng.range(1, nusers)) if t in ("t", "d") else t)
+        return ",".join(toks)
+
     def gen_case(self, rng, cid):
         body = []
         offset = 0
@@ -316,6 +364,12 @@ class C14(Prop):
             offset = rng.range(1, N - 1)
             body += [w(filler(offset, rng.below(1000))), "flush"]
         closed = {}
+        # a third of the multi-user cases script receive_snoop reactions (re-entrant add_message)
+        reactive = nusers > 1 and rng.chance(1, 2)
+        if reactive:
+            a, b = rng.range(1, nusers), rng.range(1, nusers)
+            body.append("@%d snoop %d" % (a, b))
+            body.append("@%d react %s" % (a, self.gen_react(rng, nusers)))
         for _ in range(rng.range(3, 25)):
             if closed and len(closed) == nusers and len(body) - max(closed.values()) > 3:
                 break           # after every connection went away only a few more ops are interesting
@@ -323,7 +377,8 @@ class C14(Prop):
             at = "" if (u == 1 and rng.chance(1, 2)) else "@%d " % u
             k = rng.weighted([("write", 10), ("vwrite", 3), ("sendres", 8), ("flush", 3), ("eflush", 1), ("cycle", 3),
                               ("wready", 4), ("flushall", 1), ("close", 1), ("peerfin", 1), ("peerclose", 1), ("dump", 1),
-                              ("snoop", 3 if nusers > 1 else 0), ("unsnoop", 1 if nusers > 1 else 0)])
+                              ("snoop", 3 if nusers > 1 else 0), ("unsnoop", 1 if nusers > 1 else 0),
+                              ("react", 2 if nusers > 1 and reactive else 0)])
             if kinds[u] == "console" and k in ("peerfin", "peerclose"):
                 k = "close"     # the console has no peer socket
             if k in ("write", "vwrite"):
@@ -340,6 +395,8 @@ class C14(Prop):
                     closed[u] = len(body)
             elif k == "snoop":
                 body.append("%ssnoop %d" % (at, rng.range(1, nusers)))
+            elif k == "react":
+                body.append("%sreact %s" % (at, self.gen_react(rng, nusers)))
             elif k in ("cycle", "wready", "flushall"):
                 body.append(k)
             else:
@@ -362,7 +419,7 @@ class C14(Prop):
              "vwrite_trailing_flush_sends": 0, "writes_on_dead_or_closed": 0,
              "lf_guard_chunk_N_minus_1": 0, "snoop_forwards": 0, "users_ascii_or_default": 0, "users_telnet": 0,
              "users_console": 0, "cases_multi_user": 0, "peerfin": 0, "peerclose": 0, "eflush_or_flushall": 0,
-             "sendres_E_keep": 0}
+             "sendres_E_keep": 0, "cases_reactive": 0, "nested_writes": 0, "lpcerr": 0, "react_destructs": 0}
         for c in cases:
             users = set()
             for l in c.lines:
@@ -382,6 +439,13 @@ class C14(Prop):
                     h["sendres_E_keep"] += sum(1 for x in t[1].split(",") if x in ("E11", "E4"))
             if len(users - {"@1"}) > 0:
                 h["cases_multi_user"] += 1
+            if any(" react " in " " + l + " " for l in c.lines):
+                h["cases_reactive"] += 1
+                nw = sum(1 for l in c.lines if " write " in " " + l or " vwrite " in " " + l or l.startswith(("write ", "vwrite ")))
+                tr = impl.get(c.id, [])
+                h["nested_writes"] += max(0, sum(1 for l in tr if " wbeg " in l) - nw)
+                h["lpcerr"] += sum(1 for l in tr if l.endswith(" lpcerr"))
+                h["react_destructs"] += sum(1 for l in c.lines if " react " in " " + l and re.search(r"[ ,]d\d", l) is not None)
             inw = {}        # per user: None / [kind, sends so far, last was accept, gone at start]
             gone = {}
             for l in impl.get(c.id, []):
